@@ -691,6 +691,35 @@ def conditions_dnf(N, program, body, target, terms=None, start=0, inline=False, 
     return alts
 
 
+def path_conditions(N, program, body, target, start=0, cap=256, indexed=False):
+    """Sufficient-and-necessary conditions of reaching `target`, path by path: every acyclic decision path start ->* target
+    with the switch operands evaluated under *that path's* reaching definitions (edges the path did not take removed), paths
+    with a decided-false test dropped and decided-true tests omitted.  -> list of alternatives [(switch bb, label, test
+    term)], [] when unreachable, None when there are more than `cap` paths.  (conditions()/conditions_dnf() give the tests
+    every path shares; after inlining and return threading a guard inside a helper is on *some* copy of the path only.)"""
+    paths = flow.decision_paths(body, target, start=start, cap=cap)
+    if paths is None:
+        return None
+    out = []
+    for dec in paths:
+        rd = flow.ReachingDefs(body, removed_edges=flow.contradicting_edges(body, dec))
+        Tp = flow.Terms(program, body, rd)
+        Tp.indexed = indexed
+        alt, feasible = [], True
+        for b2, s2 in dec:
+            tt = N.norm(Tp.operand(body.term(b2)["op"], b2, "t"))
+            l = flow.edge_label(body, b2, s2)
+            d = flow._decide_label(tt, l)
+            if d is False:
+                feasible = False
+                break
+            if d is None:
+                alt.append((b2, l, tt))
+        if feasible and not contradictory([(c_[2], c_[1]) for c_ in alt]):
+            out.append(alt)
+    return out
+
+
 def canon_cond(t, l):
     """boolean tests as positive atoms: (Not(x), l) ==> (x, flipped l)"""
     while isinstance(t, tuple) and len(t) == 3 and t[0] == "unop" and t[1] == "Not" and (flow.lab_true(l) or flow.lab_false(l)):
